@@ -184,6 +184,25 @@ def Message.dump (cfg : Cfg) (env : Env) (m : Message) : Except Err (Nat × List
 /-- the writers before aa1842c: every epoch as the clock reading of its own scale -/
 def Message.dumpOwnScale (m : Message) : Nat × List Int := (m.head.scale, (m.head :: m.others).map written)
 
+/-- a message of several objects (`dumps([ephem₁, ephem₂, …])`, a TDM over several paths): one segment per object, each
+with its own metadata block, hence its own `TIME_SYSTEM`, each dumped with the scale of ITS head -/
+def dumpSegments (cfg : Cfg) (env : Env) : List Message → Except Err (List (Nat × List Int))
+  | [] => .ok []
+  | m :: ms =>
+    match Message.dump cfg env m with
+    | .error e => .error e
+    | .ok w =>
+      match dumpSegments cfg env ms with
+      | .error e => .error e
+      | .ok ws => .ok (w :: ws)
+
+/-- a writer that converts the epochs of a segment to a scale `ts` that is NOT the one its metadata prints (e.g. the
+scale of the first segment of the message, hoisted out of the loop over segments: seeded change C04-m6) -/
+def Message.dumpTo (cfg : Cfg) (env : Env) (ts : Nat) (m : Message) : Except Err (Nat × List Int) :=
+  match (m.head :: m.others).mapM (fun x => inScale cfg env x ts) with
+  | .ok l => .ok (m.head.scale, l.map written)
+  | .error e => .error e
+
 /-- every epoch read back in `TIME_SYSTEM` -/
 def load (cfg : Cfg) (env : Env) (w : Nat × List Int) : List (Except Err Date) := w.2.map (ofDatetime cfg env w.1)
 
